@@ -12,6 +12,7 @@ CONSTANTS
   EUSuffixed = {}
   GenClasses = {"scalar", "array", "bitfield", "nested", "anon", "alignas", "flex"}
   GenPacked = TRUE
+  McSel = "full"
   CheckSim = FALSE
   MaxParams = 12
   MaxExtra = 4
